@@ -773,6 +773,16 @@ def _timestamp_to_datetime64_strategy(
     return st.builds(lambda x: np.datetime64(x.value, "ns"), strategy)
 
 
+def _register_builtin_check_strategies() -> None:
+    """Make sure the strategies of the built-in checks are registered.
+
+    They are registered together with the pandas implementations of the checks,
+    which are otherwise only imported by the first validation.
+    """
+    # pylint: disable=import-outside-toplevel,unused-import
+    import pandera.backends.pandas.builtin_checks  # noqa: F401
+
+
 def field_element_strategy(
     pandera_dtype: Union[numpy_engine.DataType, pandas_engine.DataType],
     strategy: Optional[SearchStrategy] = None,
@@ -793,6 +803,7 @@ def field_element_strategy(
             "The series strategy is a base strategy. You cannot specify the "
             "strategy argument to chain it to a parent strategy."
         )
+    _register_builtin_check_strategies()
     checks = [] if checks is None else checks
     elements = None
 
@@ -1018,6 +1029,7 @@ def dataframe_strategy(
             "The dataframe strategy is a base strategy. You cannot specify "
             "the strategy argument to chain it to a parent strategy."
         )
+    _register_builtin_check_strategies()
 
     columns = {} if columns is None else columns
     checks = [] if checks is None else checks
